@@ -84,6 +84,10 @@ CHECKS = {
    text="Schedule exploration of the real client library over its unix transport against the real serve loop and a core task that processes a request only when the explorer grants a permit: every interleaving of 'task i submits its next call' and 'server processes the next queued request' for 2-3 tasks on cloned handles with 2-3 calls each on colliding keys (explored to the end); each call must resolve with the reference's answer to that very call (typed results), never earlier; racing update() calls must not lose an acknowledged increment; the send buffer is driven on a paused clock through all sequences of set_later/publish_later/advance (each key's latest buffered value is sent once per kind, nothing else is sent); all unsubscribe variants (value, pattern, ls x awaited, fire-and-forget) must remove the server-side subscription and stop the events.",
    note="One stimulus outstanding at a time (paused current-thread runtime, fixed number of yields, never parking); a real unix socket lives inside the runtime, guarded by the explorer's determinism self-check; the in-process 'local' transport is not covered.",
    technique="deviation-free exhaustive schedule exploration of the real client library against the real server session (gated core task), explicit-state de-duplication"),
+ "C19": dict(cat="model_checking", engine="wbmc-orch/tree", ref="DESIGN.md §3 C19",
+   text="Stateless enumeration, for every cluster size 1..5 (quick) / 1..7 (thorough) and every configured quorum (none, 1..n), of all sequences of scripted peer behaviours up to depth 3-5 (vote from a new / duplicate / unknown node, competing vote request of higher / equal / lower priority, from a stranger, heartbeat request of a member / stranger, heartbeat response, election timeout, silence) plus the timeout-then-votes paths up to quorum+2, against the real elect_leader on a paused clock with real loopback UDP sockets: 'leader' only with votes of at least quorum-1 distinct configured peers since the node's latest vote-request broadcast; 'follower' only of a node that announced itself, and follow() starts nothing for a node that is not configured; quorum_sanity_check exhaustively for 1..7 nodes x quorum none/0..8.",
+   note="Safety only; the randomized election timeout is crossed by advancing until the vote requests are observed; lead() and the server process are not started (run_main turns the Leader outcome into lead() unconditionally).",
+   technique="stateless bounded-exhaustive exploration of the real election code against scripted peers (paused clock, loopback UDP), all configurations up to 5-7 nodes"),
 }
 
 NOT_YET = {}
@@ -118,7 +122,9 @@ def main():
         "add_only": True,
       },
       "engines":[
-        {"name":"wbmc-core","path":"/verif/wbmc/wbmc-core","serves_properties":sorted(k for k in CHECKS if k!="C19"),"kind_free_text":"explicit-state / stateless exploration of the real worterbuch code (library /verif/wbmc/mc: graph engine with snapshot de-duplication, tree engine, deviation-bounded schedule engine) against a boring reference model"},
+        {"name":"wbmc-core","path":"/verif/wbmc/wbmc-core","serves_properties":sorted(k for k in CHECKS if k!="C19"),"kind_free_text":"explicit-state / stateless exploration of the real worterbuch code (library /verif/wbmc/mc: graph engine with snapshot de-duplication, tree engine, schedule exploration with a gated core task) against a boring reference model"},
+        {"name":"wbmc-orch","path":"/verif/wbmc/wbmc-orch","serves_properties":["C19"],"kind_free_text":"stateless exploration of the real orchestrator election against scripted UDP peers on a paused clock"},
+        {"name":"crashfs","path":"/verif/crashfs/crashfs.c","serves_properties":["C10"],"kind_free_text":"LD_PRELOAD process-kill fault injector at the libc boundary (crash before the n-th mutating file-system call, torn *.tmp writes)"},
       ],
       "checks":checks,
       "notes":"Known findings: /verif/known_findings.json (signature-based; never written at run time). Fix commits in /repo start with 'fix:'.",
